@@ -25,7 +25,9 @@ func MergeFilters(node Node) (Node, bool) {
 						Type:           octosql.TypeSum(node.Filter.Predicate.Type, node.Filter.Source.Filter.Predicate.Type),
 						ExpressionType: ExpressionTypeAnd,
 						And: &And{
-							Arguments: append(node.Filter.Predicate.SplitByAnd(), node.Filter.Source.Filter.Predicate.SplitByAnd()...),
+							// The inner filter's predicates go first: AND evaluates in order and stops at the first FALSE,
+							// so the outer predicate still only sees records that the inner filter let through.
+							Arguments: append(node.Filter.Source.Filter.Predicate.SplitByAnd(), node.Filter.Predicate.SplitByAnd()...),
 						},
 					},
 					Source: node.Filter.Source.Filter.Source,
